@@ -11,7 +11,7 @@ pub fn transfer_file_from_remote(host: &str, remote_path: &str, local_path: &Pat
         forall|i: int| old(w).log.len() <= i < final(w).log.len() ==> #[trigger] final(w).log[i] == Eff::Write(pv(local_path)),
         old(w).log.len() <= final(w).log.len(), forall|i: int| 0 <= i < old(w).log.len() ==> #[trigger] final(w).log[i] == old(w).log[i],
         r is Ok ==> final(w).files.contains_key(pv(local_path))
-            && final(w).files[pv(local_path)] == (FileS { bytes: remote_content(host@, remote_path@), whole: true }),
+            && final(w).files[pv(local_path)].bytes == remote_content(host@, remote_path@) && final(w).files[pv(local_path)].whole,
         r is Err ==> (final(w).files.contains_key(pv(local_path)) ==> !final(w).files[pv(local_path)].whole),
 { unimplemented!() }
 
@@ -56,6 +56,8 @@ pub open spec fn delivered_or_untouched(new: Map<PathV, FileS>, old: Map<PathV, 
     old(w).files.contains_key(pv(src)) ==> delivered_or_untouched(final(w).files, old(w).files, pv(dst) + TMP(), pv(dst), old(w).files[pv(src)].bytes),
     !old(w).files.contains_key(pv(src)) ==> same_except(final(w).files, old(w).files, set![pv(dst) + TMP()]),
     res is Ok ==> old(w).files.contains_key(pv(src)) && final(w).files.contains_key(pv(dst)) && final(w).files[pv(dst)].bytes == old(w).files[pv(src)].bytes,
+    // C14: the delivered file carries the planned mtime (to the second), so the next run's quick check matches it
+    (res is Ok && io_ok() && mtime is Some) ==> final(w).files[pv(dst)].mtime == clamp0(mtime->Some_0 as int),
 //@replace? /tokio::fs::copy\(((?:[^()]|\([^()]*\))*)\)/ => vfs_copy(\1, Tracked(w)) #all
 //@replace? /std::fs::copy\(((?:[^()]|\([^()]*\))*)\)/ => vfs_copy(\1, Tracked(w)) #all
 //@replace? /tokio::fs::rename\(((?:[^()]|\([^()]*\))*)\)/ => vfs_rename(\1, Tracked(w)) #all
@@ -83,6 +85,7 @@ pub open spec fn delivered_or_untouched(new: Map<PathV, FileS>, old: Map<PathV, 
     delivery_log(final(w).log, old(w).log, pv(local_dest) + TMP(), pv(local_dest)),
     delivered_or_untouched(final(w).files, old(w).files, pv(local_dest) + TMP(), pv(local_dest), remote_content(host@, remote_file@)),
     res is Ok ==> final(w).files.contains_key(pv(local_dest)) && final(w).files[pv(local_dest)].bytes == remote_content(host@, remote_file@),
+    (res is Ok && io_ok() && mtime is Some) ==> final(w).files[pv(local_dest)].mtime == clamp0(mtime->Some_0 as int),
 //@replace? /transfer_file_from_remote\(((?:[^()]|\([^()]*\))*)\)/ => transfer_file_from_remote(\1, Tracked(w)) #all
 //@replace? /tokio::fs::rename\(((?:[^()]|\([^()]*\))*)\)/ => vfs_rename(\1, Tracked(w)) #all
 //@replace? /std::fs::rename\(((?:[^()]|\([^()]*\))*)\)/ => vfs_rename(\1, Tracked(w)) #all
@@ -99,6 +102,15 @@ pub open spec fn delivered_or_untouched(new: Map<PathV, FileS>, old: Map<PathV, 
 
 pub struct VErr { _p: () }      // R11: Box<dyn std::error::Error> => opaque error channel
 impl From<std::io::Error> for VErr { #[verifier::external_body] fn from(e: std::io::Error) -> Self { VErr { _p: () } } }
+// C14, per file: what the quick check (plan::needs_transfer, proved in unit `plan`: absent, or size differs, or mtime differs)
+// says about a destination file that was delivered with the source's planned metadata
+pub open spec fn needs(src_size: int, src_mtime: int, dst: Option<FileS>) -> bool {
+    dst is None || dst->Some_0.bytes.len() != src_size || dst->Some_0.mtime != src_mtime
+}
+pub proof fn lemma_delivered_is_skipped(src: FileS, dst: FileS, planned_mtime: int)
+    requires dst.bytes == src.bytes, planned_mtime >= 0, dst.mtime == clamp0(planned_mtime),
+    ensures !needs(src.bytes.len() as int, planned_mtime, Some(dst)),
+{ }
 //@extract file=src/bin/copia/dir_sync.rs fn=create_local_dirs
 //@sig /Box<dyn std::error::Error>/ => VErr
 //@ret res
